@@ -1790,3 +1790,477 @@ Proof.
     apply existsb_exists in E. destruct E as ([mb box] & E1 & E2). simpl in E2. apply mem_addr_In in E2. rewrite K2 in E2.
     destruct (DR _ _ _ _ E2 W) as [X _]. apply In_lookup_b in E1. contradiction.
 Qed.
+
+(* ------------------------------------------------------------------ server tables (DetachedServer) *)
+Section LN.
+  Context {V : Type}.
+  Lemma ln_remove_same k (l : list (nat * V)) : lookup_n k (remove_n k l) = None.
+  Proof. apply lookup_remove_same. Qed.
+  Lemma ln_remove_other k j (l : list (nat * V)) : k <> j -> lookup_n k (remove_n j l) = lookup_n k l.
+  Proof. apply lookup_remove_other. apply Nat.eqb_eq. Qed.
+  Lemma ln_remove_none k j (l : list (nat * V)) : lookup_n k l = None -> lookup_n k (remove_n j l) = None.
+  Proof. apply lookup_remove_none. Qed.
+  Lemma ln_put_same k v (l : list (nat * V)) : lookup_n k (put_n k v l) = Some v.
+  Proof. apply lookup_put_same. apply Nat.eqb_eq. Qed.
+  Lemma ln_put_other k j v (l : list (nat * V)) : k <> j -> lookup_n k (put_n j v l) = lookup_n k l.
+  Proof. apply lookup_put_other. apply Nat.eqb_eq. Qed.
+  Lemma ln_In k v (l : list (nat * V)) : lookup_n k l = Some v -> In (k, v) l.
+  Proof. apply lookup_In. apply Nat.eqb_eq. Qed.
+  Lemma ln_filter_keep (f : nat * V -> bool) k v : forall l, lookup_n k l = Some v -> f (k, v) = true -> lookup_n k (filter f l) = Some v.
+  Proof. induction l as [|[k' v'] l IH]; simpl; intros H F. discriminate.
+    destruct (Nat.eqb k k') eqn:E.
+    - apply Nat.eqb_eq in E. subst. inv H. rewrite F. simpl. rewrite Nat.eqb_refl. auto.
+    - destruct (f (k', v')); simpl; auto. rewrite E. auto. Qed.
+  Lemma ln_filter_none (f : nat * V -> bool) k : forall l, lookup_n k l = None -> lookup_n k (filter f l) = None.
+  Proof. induction l as [|[k' v'] l IH]; simpl; intros H; auto.
+    destruct (Nat.eqb k k') eqn:E. discriminate. destruct (f (k', v')); simpl; auto. rewrite E; auto. Qed.
+  Lemma ln_unique k v (l : list (nat * V)) : NoDup (map fst l) -> In (k, v) l -> lookup_n k l = Some v.
+  Proof. induction l as [|[k' v'] l IH]; simpl; intros N H. destruct H. inv N.
+    destruct H as [H|H]. inv H. rewrite Nat.eqb_refl; auto.
+    destruct (Nat.eqb k k') eqn:E. apply Nat.eqb_eq in E. subst. exfalso. apply H2. apply in_map_iff. exists (k', v); auto.
+    auto. Qed.
+  Lemma keys_put_new k v (l : list (nat * V)) : lookup_n k l = None -> map fst (put_n k v l) = map fst l ++ [k].
+  Proof. induction l as [|[k' v'] l IH]; simpl; intros H; auto. destruct (Nat.eqb k k') eqn:E. discriminate. simpl. rewrite IH; auto. Qed.
+  Lemma lookup_none_notin k (l : list (nat * V)) : lookup_n k l = None -> ~ In k (map fst l).
+  Proof. induction l as [|[k' v'] l IH]; simpl; intros H; auto. destruct (Nat.eqb k k') eqn:E. discriminate.
+    intros [X|X]. subst. rewrite Nat.eqb_refl in E. discriminate. apply IH; auto. Qed.
+  Lemma NoDup_keys_filter (f : nat * V -> bool) (l : list (nat * V)) : NoDup (map fst l) -> NoDup (map fst (filter f l)).
+  Proof. induction l as [|[k v] l IH]; simpl; intros N; auto. inv N. destruct (f (k, v)); simpl; auto. constructor; auto.
+    intros X. apply H1. apply in_map_iff in X. destruct X as ([k' v'] & E & IN). simpl in E. subst. apply filter_In in IN.
+    apply in_map_iff. exists (k, v'); tauto. Qed.
+End LN.
+
+Lemma In_remove_first_neq x y l : In x l -> x <> y -> In x (remove_first y l).
+Proof. induction l as [|z l IH]; simpl; intros H N; auto. destruct (y =? z) eqn:E.
+  apply Nat.eqb_eq in E. subst. destruct H; auto. congruence. destruct H; [left|right]; auto. Qed.
+Lemma NoDup_remove_first y l : NoDup l -> NoDup (remove_first y l) /\ ~ In y (remove_first y l).
+Proof. induction l as [|z l IH]; simpl; intros N. split; auto. inv N. destruct (y =? z) eqn:E.
+  apply Nat.eqb_eq in E. subst. split; auto. apply Nat.eqb_neq in E. destruct (IH H2) as [A B]. split.
+  constructor; auto. intro X. apply H1. eapply In_remove_first; eauto. intros [X|X]; auto. Qed.
+
+Record srv_inv (s : sstate) : Prop := {
+  sv_box : forall mb b, lookup_n mb (s_boxes s) = Some b ->
+     exists id c ids, lookup_n mb (s_m2t s) = Some id /\ lookup_n id (s_tasks s) = Some (mb, c)
+                      /\ lookup_n c (s_clients s) = Some ids /\ In id ids;
+  sv_task : forall id mb c, lookup_n id (s_tasks s) = Some (mb, c) -> mb < s_counter s /\ lookup_n mb (s_m2t s) = Some id;
+  sv_cli : forall c ids id, lookup_n c (s_clients s) = Some ids -> In id ids ->
+     exists mb, lookup_n id (s_tasks s) = Some (mb, c) /\ lookup_n mb (s_boxes s) <> None;
+  sv_nodup : forall c ids, lookup_n c (s_clients s) = Some ids -> NoDup ids;
+  sv_blt : forall mb, lookup_n mb (s_boxes s) <> None -> mb < s_counter s;
+  sv_m2t : forall mb id, In (mb, id) (s_m2t s) -> mb < s_counter s;
+  sv_keys : NoDup (map fst (s_tasks s))
+}.
+
+Lemma srv_inv_init : srv_inv init_server.
+Proof. constructor; simpl; intros; try discriminate; try congruence; try contradiction. constructor. Qed.
+
+(* removing the mailbox of task id (and the id from its client's set) keeps the invariant *)
+Lemma srv_inv_drop s id mb c cl' : srv_inv s -> lookup_n id (s_tasks s) = Some (mb, c) ->
+  (forall c0 ids0, lookup_n c0 cl' = Some ids0 ->
+     exists ids1, lookup_n c0 (s_clients s) = Some ids1 /\ NoDup ids0 /\ (forall x, In x ids1 -> x <> id -> In x ids0)
+                  /\ (forall x, In x ids0 -> In x ids1 /\ x <> id)) ->
+  (forall c0 ids1, lookup_n c0 (s_clients s) = Some ids1 -> exists ids0, lookup_n c0 cl' = Some ids0) ->
+  srv_inv (set_s_clients cl' (set_s_boxes (remove_n mb (s_boxes s)) s)).
+Proof.
+  intros [SB ST SC SN SL SM SK] T CL1 CL2. constructor; simpl; auto.
+  - intros mb' b L. destruct (Nat.eq_dec mb' mb). subst. rewrite ln_remove_same in L. discriminate.
+    rewrite ln_remove_other in L by auto. destruct (SB _ _ L) as (id0 & c0 & ids0 & A1 & A2 & A3 & A4).
+    destruct (CL2 _ _ A3) as [ids' L']. exists id0, c0, ids'. repeat split; auto.
+    destruct (CL1 _ _ L') as (ids1 & B1 & B2 & B3 & _). rewrite A3 in B1. inv B1. apply B3; auto.
+    intro E. subst. rewrite T in A2. inv A2. congruence.
+  - intros c0 ids0 id0 L IN. destruct (CL1 _ _ L) as (ids1 & B1 & B2 & B3 & B4). destruct (B4 _ IN) as [I1 I2].
+    destruct (SC _ _ _ B1 I1) as (mb0 & M1 & M2). exists mb0. split; auto.
+    rewrite ln_remove_other; auto. intro E. subst.
+    destruct (ST _ _ _ M1) as [_ X1]. destruct (ST _ _ _ T) as [_ X2]. congruence.
+  - intros c0 ids0 L. destruct (CL1 _ _ L) as (ids1 & B1 & B2 & B3). auto.
+  - intros mb' N. apply SL. intro E. apply N. apply ln_remove_none; auto.
+Qed.
+
+Lemma cancel_comp_spec nw id s s' o iss : cancel_comp nw id s = Some (s', o, iss) -> srv_inv s ->
+  exists mb c, lookup_n id (s_tasks s) = Some (mb, c)
+    /\ srv_inv s'
+    /\ lookup_n mb (s_boxes s') = None
+    /\ (forall ids, lookup_n c (s_clients s') = Some ids -> ~ In id ids)
+    /\ iss = [(0, mb, 0)] /\ o_down o = broadcast nw (MCancel (0, mb, 0))
+    /\ s_tasks s' = s_tasks s /\ s_m2t s' = s_m2t s /\ s_counter s' = s_counter s /\ s_closed s' = s_closed s
+    /\ (forall mb', lookup_n mb' (s_boxes s) = None -> lookup_n mb' (s_boxes s') = None)
+    /\ (forall mb', mb' <> mb -> lookup_n mb' (s_boxes s') = lookup_n mb' (s_boxes s))
+    /\ (forall c', lookup_n c' (s_clients s') = None <-> lookup_n c' (s_clients s) = None).
+Proof.
+  unfold cancel_comp. intros H I.
+  destruct (lookup_n id (s_tasks s)) as [[mb c]|] eqn:T; [|discriminate].
+  destruct (lookup_n mb (s_boxes s)) eqn:B; [|discriminate]. simpl in H.
+  destruct (lookup_n c (s_clients s)) as [ids|] eqn:C.
+  - destruct (mem_nat id ids) eqn:M; inv H. exists mb, c. split; auto. simpl.
+    pose proof (sv_nodup _ I _ _ C) as ND. destruct (NoDup_remove_first id _ ND) as [ND1 ND2].
+    split; [|split; [apply ln_remove_same|split; [|repeat split; auto]]].
+    + apply (srv_inv_drop s id mb c); auto.
+      * intros c0 ids0 L. destruct (Nat.eq_dec c0 c). subst. rewrite ln_put_same in L. inv L. exists ids. repeat split; auto.
+        intros; apply In_remove_first_neq; auto. eapply In_remove_first; eauto. intro; subst; contradiction.
+        rewrite ln_put_other in L by auto. exists ids0. repeat split; auto. eapply sv_nodup; eauto.
+        intro; subst. destruct (sv_cli _ I _ _ _ L H) as (mb0 & M1 & _). rewrite T in M1. inv M1. congruence.
+      * intros c0 ids1 L. destruct (Nat.eq_dec c0 c). subst. rewrite ln_put_same. eauto. rewrite ln_put_other by auto. eauto.
+    + intros ids' L. rewrite ln_put_same in L. inv L. auto.
+    + intros; apply ln_remove_none; auto.
+    + intros; apply ln_remove_other; auto.
+    + destruct (Nat.eq_dec c' c). subst. rewrite ln_put_same. congruence. rewrite ln_put_other; auto.
+    + destruct (Nat.eq_dec c' c). subst. rewrite ln_put_same. congruence. rewrite ln_put_other; auto.
+  - inv H. exists mb, c. split; auto. simpl.
+    (* the owner is not connected: impossible for a mailbox that still exists *)
+    exfalso. destruct (sv_box _ I _ _ B) as (id0 & c0 & ids0 & A1 & A2 & A3 & A4).
+    destruct (sv_task _ I _ _ _ T) as [_ M2]. rewrite M2 in A1. inv A1. rewrite T in A2. inv A2. congruence.
+Qed.
+
+(* cancel_comp when the owner's connection is not (any more) in `clients`: what handle_disconnect's loop runs *)
+Lemma cancel_comp_raw nw id s s' o iss c mb : cancel_comp nw id s = Some (s', o, iss) ->
+  lookup_n id (s_tasks s) = Some (mb, c) -> lookup_n c (s_clients s) = None ->
+  s' = set_s_boxes (remove_n mb (s_boxes s)) s /\ lookup_n mb (s_boxes s) <> None
+  /\ iss = [(0, mb, 0)] /\ o_down o = broadcast nw (MCancel (0, mb, 0)).
+Proof. unfold cancel_comp. intros H T C. rewrite T in H. destruct (lookup_n mb (s_boxes s)) eqn:B; [|discriminate].
+  simpl in H. rewrite C in H. inv H. repeat split; auto. congruence. Qed.
+
+Lemma cancel_all_spec nw c : forall ids s s' o iss, cancel_all nw ids s = Some (s', o, iss) ->
+  lookup_n c (s_clients s) = None -> (forall id, In id ids -> exists mb, lookup_n id (s_tasks s) = Some (mb, c)) ->
+  s_tasks s' = s_tasks s /\ s_m2t s' = s_m2t s /\ s_counter s' = s_counter s /\ s_closed s' = s_closed s
+  /\ s_clients s' = s_clients s
+  /\ (forall id mb, In id ids -> lookup_n id (s_tasks s) = Some (mb, c) -> lookup_n mb (s_boxes s') = None)
+  /\ (forall mb', (forall id, In id ids -> lookup_n id (s_tasks s) <> Some (mb', c)) -> lookup_n mb' (s_boxes s') = lookup_n mb' (s_boxes s))
+  /\ (forall mb', lookup_n mb' (s_boxes s) = None -> lookup_n mb' (s_boxes s') = None)
+  /\ (forall a, In a iss -> exists id mb, In id ids /\ lookup_n id (s_tasks s) = Some (mb, c) /\ a = (0, mb, 0)).
+Proof.
+  induction ids as [|id rr IH]; intros s s' o iss H C T; simpl in H.
+  - inv H. repeat split; auto. intros id mb []. intros a [].
+  - destruct (cancel_comp nw id s) as [[[s1 o1] i1]|] eqn:C1; [|discriminate].
+    destruct (cancel_all nw rr s1) as [[[s2 o2] i2]|] eqn:C2; [|discriminate]. inv H.
+    destruct (T id (or_introl eq_refl)) as [mb TI].
+    destruct (cancel_comp_raw _ _ _ _ _ _ _ _ C1 TI C) as (E1 & E2 & E3 & E4). subst s1.
+    apply IH in C2; simpl; auto; [|intros id0 IN0; apply T; right; auto]. simpl in C2.
+    destruct C2 as (A1 & A2 & A3 & A4 & A5 & A6 & A7 & A8 & A9).
+    repeat split; auto.
+    + intros id' mb' [->|IN] L. rewrite TI in L. inv L. apply A8. apply ln_remove_same. eapply A6; eauto.
+    + intros mb' N. rewrite A7. apply ln_remove_other. intro; subst. apply (N id); auto. intros id' IN. apply N. right; auto.
+    + intros mb' N. apply A8. apply ln_remove_none; auto.
+    + intros a IN. apply in_app_or in IN. destruct IN as [IN|IN]. subst i1. destruct IN as [<-|[]]. exists id, mb. auto.
+      destruct (A9 _ IN) as (id' & mb' & X1 & X2 & X3). exists id', mb'. auto.
+Qed.
+
+Lemma list_eqb_eq a : forall b, list_eqb a b = true -> a = b.
+Proof. induction a as [|x a IH]; intros [|y b] H; simpl in H; try discriminate; auto.
+  apply andb_true_iff in H. destruct H as [H1 H2]. apply Nat.eqb_eq in H1. subst. f_equal; auto. Qed.
+Lemma insert_sorted_In x y l : In x (insert_sorted y l) <-> x = y \/ In x l.
+Proof. induction l as [|z l IH]; simpl. intuition. destruct (y <=? z); simpl. intuition. rewrite IH. intuition. Qed.
+Lemma sort_nat_In x l : In x (sort_nat l) <-> In x l.
+Proof. induction l as [|z l IH]; simpl. tauto. rewrite insert_sorted_In, IH. intuition. Qed.
+
+Lemma ln_filter_some {V} (f : nat * V -> bool) k v l : lookup_n k (filter f l) = Some v -> In (k, v) l /\ f (k, v) = true.
+Proof. intros H. apply ln_In in H. apply filter_In in H. auto. Qed.
+
+Lemma disconnect_spec nw c order s s' o iss : disconnect nw c order s = Some (s', o, iss) -> srv_inv s ->
+  srv_inv s'
+  /\ lookup_n c (s_clients s') = None /\ In c (s_closed s')
+  /\ (forall id mb, ~ In (id, (mb, c)) (s_tasks s'))
+  /\ (forall id mb, lookup_n id (s_tasks s) = Some (mb, c) ->
+        lookup_n id (s_tasks s') = None /\ lookup_n mb (s_m2t s') = None /\ lookup_n mb (s_boxes s') = None)
+  /\ (forall a, In a iss -> exists id mb, lookup_n id (s_tasks s) = Some (mb, c) /\ a = (0, mb, 0))
+  /\ (forall mb', lookup_n mb' (s_boxes s) = None -> lookup_n mb' (s_boxes s') = None)
+  /\ s_counter s' = s_counter s
+  /\ (forall c', c' <> c -> lookup_n c' (s_clients s') = lookup_n c' (s_clients s))
+  /\ (forall x, In x (s_closed s') <-> x = c \/ In x (s_closed s)).
+Proof.
+  unfold disconnect. intros H I. destruct (lookup_n c (s_clients s)) as [ids|] eqn:C; [|discriminate].
+  destruct (list_eqb (sort_nat order) (sort_nat ids)) eqn:LE; [|discriminate]. apply list_eqb_eq in LE.
+  assert (PERM : forall x, In x order <-> In x ids). { intros x. rewrite <- (sort_nat_In x order), LE, sort_nat_In. tauto. }
+  match type of H with context[cancel_all nw order ?x] => set (s1 := x) in * end.
+  destruct (cancel_all nw order s1) as [[[s2 o2] i2]|] eqn:CA; [|discriminate].
+  inv H. pose proof I as [SB ST SC SN SL SM SK].
+  assert (C1 : lookup_n c (s_clients s1) = None) by (simpl; apply ln_remove_same).
+  assert (T1 : forall id, In id order -> exists mb, lookup_n id (s_tasks s1) = Some (mb, c)).
+  { intros id IN. apply PERM in IN. destruct (SC _ _ _ C IN) as (mb & M1 & _). eauto. }
+  destruct (cancel_all_spec _ _ _ _ _ _ _ CA C1 T1) as (A1 & A2 & A3 & A4 & A5 & A6 & A7 & A8 & A9). simpl in *.
+  set (keep := fun e : nat * (nat * nat) => negb (snd (snd e) =? c)).
+  set (gone := filter (fun e : nat * (nat * nat) => snd (snd e) =? c) (s_tasks s2)).
+  (* a mailbox that survives belongs to another client *)
+  assert (BOXC : forall id mb, lookup_n id (s_tasks s) = Some (mb, c) -> lookup_n mb (s_boxes s2) = None).
+  { intros id mb L. destruct (lookup_n mb (s_boxes s)) eqn:B; [|apply A8; auto].
+    destruct (SB _ _ B) as (id0 & c0 & ids0 & X1 & X2 & X3 & X4). destruct (ST _ _ _ L) as [_ Y]. rewrite Y in X1. inv X1.
+    rewrite L in X2. inv X2. rewrite C in X3. inv X3. eapply A6; eauto. apply PERM; auto. }
+  assert (GONE : forall mb, In mb (map (fun g : nat * (nat * nat) => fst (snd g)) gone) <-> exists id, lookup_n id (s_tasks s) = Some (mb, c)).
+  { intros mb. rewrite in_map_iff. split.
+    - intros ([id [mb' c']] & E & IN). simpl in E. subst. apply filter_In in IN. destruct IN as [IN E]. simpl in E. apply Nat.eqb_eq in E. subst.
+      exists id. rewrite A1 in IN. apply ln_unique; auto.
+    - intros [id L]. exists (id, (mb, c)). split; auto. apply filter_In. split. rewrite A1. apply ln_In; auto. simpl. apply Nat.eqb_refl. }
+  assert (M2T : forall mb id, lookup_n mb (s_m2t s) = Some id -> (forall id', lookup_n id' (s_tasks s) <> Some (mb, c)) ->
+            lookup_n mb (filter (fun e => negb (mem_nat (fst e) (map (fun g : nat * (nat * nat) => fst (snd g)) gone))) (s_m2t s2)) = Some id).
+  { intros mb id L N. apply ln_filter_keep. rewrite A2; auto. simpl. apply negb_true_iff.
+    destruct (mem_nat mb (map (fun g : nat * (nat * nat) => fst (snd g)) gone)) eqn:M; auto.
+    apply mem_nat_In in M. apply GONE in M. destruct M as [id' L']. exfalso. eapply N; eauto. }
+  split; [|split; [|split; [|split; [|split; [|split; [|split; [|split; [|split]]]]]]]].
+  - (* invariant *)
+    constructor; simpl.
+    + intros mb b L. destruct (lookup_n mb (s_boxes s)) eqn:B; [|rewrite A8 in L; congruence].
+      destruct (SB _ _ B) as (id0 & c0 & ids0 & X1 & X2 & X3 & X4).
+      assert (NC : c0 <> c). { intro; subst. rewrite (BOXC _ _ X2) in L. discriminate. }
+      exists id0, c0, ids0. split; [|split; [|split]]; auto.
+      * apply M2T; auto. intros id' L'. destruct (ST _ _ _ L') as [_ Y]. rewrite Y in X1. inv X1. rewrite X2 in L'. inv L'. congruence.
+      * apply ln_filter_keep. rewrite A1; auto. simpl. apply negb_true_iff. apply Nat.eqb_neq; auto.
+      * rewrite A5. simpl. rewrite ln_remove_other; auto.
+    + intros id mb c' L. apply ln_filter_some in L. destruct L as [L F]. simpl in F. apply negb_true_iff in F. apply Nat.eqb_neq in F.
+      rewrite A1 in L. apply ln_unique in L; auto. destruct (ST _ _ _ L) as [Y1 Y2]. rewrite A3. split; auto.
+      apply M2T; auto. intros id' L'. destruct (ST _ _ _ L') as [_ Y]. rewrite Y in Y2. inv Y2. rewrite L in L'. inv L'. simpl in F. congruence.
+    + intros c0 ids0 id L IN. rewrite A5 in L. simpl in L. destruct (Nat.eq_dec c0 c). subst. rewrite ln_remove_same in L. discriminate.
+      rewrite ln_remove_other in L by auto. destruct (SC _ _ _ L IN) as (mb & M1 & M2). exists mb. split.
+      apply ln_filter_keep. rewrite A1; auto. simpl. apply negb_true_iff. apply Nat.eqb_neq; auto.
+      rewrite A7; auto. intros id' IN' L'. destruct (ST _ _ _ L') as [_ Y]. destruct (ST _ _ _ M1) as [_ Y']. rewrite Y in Y'. inv Y'.
+      rewrite M1 in L'. inv L'. congruence.
+    + intros c0 ids0 L. rewrite A5 in L. simpl in L. destruct (Nat.eq_dec c0 c). subst. rewrite ln_remove_same in L. discriminate.
+      rewrite ln_remove_other in L by auto. eauto.
+    + intros mb N. rewrite A3. apply SL. intro E. apply N. apply A8; auto.
+    + intros mb id IN. apply filter_In in IN. destruct IN as [IN _]. rewrite A2 in IN. rewrite A3. eauto.
+    + apply NoDup_keys_filter. rewrite A1; auto.
+  - rewrite A5. simpl. apply ln_remove_same.
+  - rewrite A4. simpl. auto.
+  - intros id mb IN. apply filter_In in IN. destruct IN as [_ F]. simpl in F. apply negb_true_iff in F. apply Nat.eqb_neq in F. simpl in F. congruence.
+  - intros id mb L. split; [|split].
+    + destruct (lookup_n id (filter (fun e : nat * (nat * nat) => negb (snd (snd e) =? c)) (s_tasks s2))) as [[mb' c']|] eqn:F; auto.
+      apply ln_filter_some in F. destruct F as [F1 F2]. rewrite A1 in F1. apply ln_unique in F1; auto. rewrite L in F1. inv F1.
+      simpl in F2. apply negb_true_iff in F2. apply Nat.eqb_neq in F2. simpl in F2. congruence.
+    + match goal with |- lookup_n mb ?l = None => destruct (lookup_n mb l) eqn:F; auto end.
+      apply ln_filter_some in F. destruct F as [_ F]. simpl in F. apply negb_true_iff in F.
+      assert (mem_nat mb (map (fun g : nat * (nat * nat) => fst (snd g)) gone) = true) by (apply mem_nat_In; apply GONE; eauto). congruence.
+    + eapply BOXC; eauto.
+  - intros a IN. destruct (A9 _ IN) as (id & mb & X1 & X2 & X3). eauto.
+  - exact A8.
+  - exact A3.
+  - intros c' N. rewrite A5. simpl. apply ln_remove_other; auto.
+  - intros x. rewrite A4. simpl. intuition.
+Qed.
+
+(* a server mailbox that is gone never comes back *)
+Definition sext (s s' : sstate) : Prop :=
+  s_counter s <= s_counter s' /\ forall mb, mb < s_counter s -> lookup_n mb (s_boxes s) = None -> lookup_n mb (s_boxes s') = None.
+Lemma sext_refl s : sext s s. Proof. split; auto. Qed.
+
+Lemma NoDup_snoc {A} (l : list A) x : NoDup l -> ~ In x l -> NoDup (l ++ [x]).
+Proof. induction l as [|y l IH]; simpl; intros N H.
+  - constructor. intros []. constructor.
+  - inv N. constructor.
+    + intro X. apply in_app_or in X. destruct X as [X|[X|[]]]; auto.
+    + apply IH; auto.
+Qed.
+
+Lemma sreq_inv nw c r asg s s' o iss : sreq nw c r asg s = Some (s', o, iss) -> srv_inv s -> srv_inv s' /\ sext s s'.
+Proof.
+  intros H I. destruct r; unfold sreq in H; cbv beta iota in H.
+  - (* connect *)
+    destruct (lookup_n c (s_clients s)) eqn:C; [discriminate|]. destruct (mem_nat c (s_closed s)); inv H.
+    split; [|split; simpl; auto]. destruct I as [SB ST SC SN SL SM SK]. constructor; simpl; auto.
+    + intros mb b L. destruct (SB _ _ L) as (id0 & c0 & ids0 & X1 & X2 & X3 & X4). exists id0, c0, ids0. repeat split; auto.
+      rewrite ln_put_other; auto. congruence.
+    + intros c0 ids0 id L IN. destruct (Nat.eq_dec c0 c). subst. rewrite ln_put_same in L. inv L. destruct IN.
+      rewrite ln_put_other in L by auto. eauto.
+    + intros c0 ids0 L. destruct (Nat.eq_dec c0 c). subst. rewrite ln_put_same in L. inv L. constructor.
+      rewrite ln_put_other in L by auto. eauto.
+  - (* submit *)
+    destruct (lookup_n c (s_clients s)) as [ids|] eqn:C; [|discriminate].
+    destruct (lookup_n id (s_tasks s)) eqn:T; [discriminate|].
+    match type of H with context[schedule ?a ?b ?c] => destruct (schedule a b c) end; inv H.
+    destruct I as [SB ST SC SN SL SM SK]. set (mb := s_counter s) in *.
+    assert (F1 : lookup_n mb (s_m2t s) = None).
+    { destruct (lookup_n mb (s_m2t s)) eqn:M; auto. apply ln_In in M. apply SM in M. unfold mb in M. lia. }
+    assert (F2 : lookup_n mb (s_boxes s) = None).
+    { destruct (lookup_n mb (s_boxes s)) eqn:B; auto. assert (mb < s_counter s) by (apply SL; congruence). unfold mb in *. lia. }
+    assert (F3 : forall id' c', lookup_n id' (s_tasks s) <> Some (mb, c')).
+    { intros id' c' L. apply ST in L. unfold mb in *. lia. }
+    assert (INS : forall x, In x (if mem_nat id ids then ids else ids ++ [id]) <-> x = id \/ In x ids).
+    { intros x. destruct (mem_nat id ids) eqn:M. apply mem_nat_In in M. split; auto. intros [->|?]; auto.
+      rewrite in_app_iff. simpl. intuition. }
+    split.
+    + constructor; simpl.
+      * intros mb' b L. destruct (Nat.eq_dec mb' mb).
+        -- subst mb'. exists id, c. eexists. rewrite !ln_put_same. repeat split; auto. apply INS; auto.
+        -- rewrite ln_put_other in L by auto. destruct (SB _ _ L) as (id0 & c0 & ids0 & X1 & X2 & X3 & X4).
+           assert (id0 <> id) by congruence.
+           destruct (Nat.eq_dec c0 c).
+           ++ subst. rewrite C in X3. inv X3. exists id0, c. eexists. rewrite ln_put_same, !ln_put_other by auto.
+              repeat split; auto. apply INS; auto.
+           ++ exists id0, c0, ids0. rewrite !ln_put_other by auto. auto.
+      * intros id' mb' c' L. destruct (Nat.eq_dec id' id).
+        -- subst. rewrite ln_put_same in L. inv L. rewrite ln_put_same. split; auto.
+        -- rewrite ln_put_other in L by auto. destruct (ST _ _ _ L) as [Y1 Y2]. split. lia.
+           rewrite ln_put_other; auto. intro; subst. eapply F3; eauto.
+      * intros c0 ids0 id' L IN. destruct (Nat.eq_dec c0 c).
+        -- subst. rewrite ln_put_same in L. inv L. apply INS in IN. destruct IN as [->|IN].
+           exists mb. rewrite !ln_put_same. split; auto. congruence.
+           destruct (SC _ _ _ C IN) as (mb0 & M1 & M2). assert (id' <> id) by congruence.
+           exists mb0. rewrite ln_put_other by auto. split; auto. rewrite ln_put_other; auto. intro; subst. eapply F3; eauto.
+        -- rewrite ln_put_other in L by auto. destruct (SC _ _ _ L IN) as (mb0 & M1 & M2). assert (id' <> id) by congruence.
+           exists mb0. rewrite ln_put_other by auto. split; auto. rewrite ln_put_other; auto. intro; subst. eapply F3; eauto.
+      * intros c0 ids0 L. destruct (Nat.eq_dec c0 c).
+        -- subst. rewrite ln_put_same in L. inv L. pose proof (SN _ _ C) as ND. destruct (mem_nat id ids) eqn:M; auto.
+           apply NoDup_snoc; auto. intro X. apply mem_nat_In in X. congruence.
+        -- rewrite ln_put_other in L by auto. eauto.
+      * intros mb' N. destruct (Nat.eq_dec mb' mb). subst; lia. rewrite ln_put_other in N by auto. apply SL in N. lia.
+      * intros mb' id' IN. apply In_put_inv in IN. destruct IN as [IN|IN]. inv IN. lia. apply SM in IN. lia.
+      * rewrite keys_put_new by auto. apply NoDup_snoc; auto. eapply lookup_none_notin; eauto.
+    + split; simpl. lia. intros mb' L N. rewrite ln_put_other; auto. unfold mb. lia.
+  - (* request *)
+    destruct (lookup_n c (s_clients s)) as [ids|] eqn:C; [|discriminate].
+    destruct (if mem_nat id ids then lookup_n id (s_tasks s) else None) as [[mb c']|] eqn:T.
+    + destruct (mem_nat id ids) eqn:M; [|discriminate]. apply mem_nat_In in M.
+      destruct (lookup_n mb (s_boxes s)) as [box|] eqn:B; [|discriminate].
+      destruct (sv_cli _ I _ _ _ C M) as (mb0 & M1 & _). rewrite T in M1. inv M1.
+      destruct (sb_result box) eqn:R; inv H.
+      * split; [|split; simpl; auto; intros; apply ln_remove_none; auto].
+        pose proof (sv_nodup _ I _ _ C) as ND. destruct (NoDup_remove_first id _ ND) as [ND1 ND2].
+        apply (srv_inv_drop s id mb0 c); auto.
+        -- intros c0 ids0 L. destruct (Nat.eq_dec c0 c). subst. rewrite ln_put_same in L. inv L. exists ids. repeat split; auto.
+           intros; apply In_remove_first_neq; auto. eapply In_remove_first; eauto. intro; subst; contradiction.
+           rewrite ln_put_other in L by auto. exists ids0. repeat split; auto. eapply sv_nodup; eauto.
+           intro; subst. destruct (sv_cli _ I _ _ _ L H) as (mb1 & X1 & _). rewrite T in X1. inv X1. congruence.
+        -- intros c0 ids1 L. destruct (Nat.eq_dec c0 c). subst. rewrite ln_put_same. eauto. rewrite ln_put_other by auto. eauto.
+      * split.
+        -- destruct I as [SB ST SC SN SL SM SK]. constructor; simpl; auto.
+           ++ intros mb' b L. destruct (Nat.eq_dec mb' mb0). subst. eapply SB; eauto. rewrite ln_put_other in L by auto. eauto.
+           ++ intros c0 ids0 id' L IN. destruct (SC _ _ _ L IN) as (mb1 & X1 & X2). exists mb1. split; auto.
+              destruct (Nat.eq_dec mb1 mb0). subst. rewrite ln_put_same. congruence. rewrite ln_put_other; auto.
+           ++ intros mb' N. destruct (Nat.eq_dec mb' mb0). subst. apply SL. congruence. rewrite ln_put_other in N by auto. auto.
+        -- split; simpl; auto. intros mb' L N. destruct (Nat.eq_dec mb' mb0). subst. congruence. rewrite ln_put_other; auto.
+    + pose proof (disconnect_spec _ _ _ _ _ _ _ H I) as (D1 & _ & _ & _ & _ & _ & D7 & D8 & _). split; auto. split. lia. intros; auto.
+  - (* cancel *)
+    pose proof (cancel_comp_spec _ _ _ _ _ _ H I) as (mb & c' & _ & D1 & _ & _ & _ & _ & _ & _ & D9 & _ & D11 & _). split; auto.
+    split. lia. intros; auto.
+  - (* disconnect *)
+    pose proof (disconnect_spec _ _ _ _ _ _ _ H I) as (D1 & _ & _ & _ & _ & _ & D7 & D8 & _). split; auto. split. lia. intros; auto.
+Qed.
+
+Lemma sup_inv nw m asg s s' o lab : sup nw m asg s = Some (s', o, lab) -> srv_inv s -> srv_inv s' /\ sext s s'.
+Proof.
+  intros H I. destruct m; unfold sup in H; cbv beta iota in H.
+  - destruct (schedule nw [t] asg); inv H. split; auto. apply sext_refl.
+  - destruct (schedule nw ts asg); inv H. split; auto. apply sext_refl.
+  - destruct ra as [[x mb] slot]. destruct x.
+    + destruct (lookup_n mb (s_boxes s)) as [box|] eqn:B; [|inv H; split; auto; apply sext_refl].
+      destruct (lookup_n mb (s_m2t s)) as [id|] eqn:M; [|discriminate].
+      destruct (sb_waiting box).
+      * destruct (lookup_n id (s_tasks s)) as [[mb' conn]|] eqn:T; [|discriminate].
+        destruct (lookup_n conn (s_clients s)) as [ids|] eqn:C; [|discriminate].
+        destruct (mem_nat id ids) eqn:MM; inv H.
+        destruct (sv_task _ I _ _ _ T) as [_ Y]. destruct (sv_box _ I _ _ B) as (id0 & c0 & ids0 & X1 & X2 & X3 & X4).
+        rewrite M in X1. inv X1. rewrite T in X2. inv X2. rewrite C in X3. inv X3.
+        split; [|split; simpl; auto; intros; apply ln_remove_none; auto].
+        pose proof (sv_nodup _ I _ _ C) as ND. destruct (NoDup_remove_first id0 _ ND) as [ND1 ND2].
+        apply (srv_inv_drop s id0 mb c0); auto.
+        -- intros c1 ids1 L. destruct (Nat.eq_dec c1 c0). subst. rewrite ln_put_same in L. inv L. exists ids0. repeat split; auto.
+           intros; apply In_remove_first_neq; auto. eapply In_remove_first; eauto. intro; subst; contradiction.
+           rewrite ln_put_other in L by auto. exists ids1. repeat split; auto. eapply sv_nodup; eauto.
+           intro; subst. destruct (sv_cli _ I _ _ _ L H) as (mb1 & Z1 & _). rewrite T in Z1. inv Z1. congruence.
+        -- intros c1 ids1 L. destruct (Nat.eq_dec c1 c0). subst. rewrite ln_put_same. eauto. rewrite ln_put_other by auto. eauto.
+      * inv H. split.
+        -- destruct I as [SB ST SC SN SL SM SK]. constructor; simpl; auto.
+           ++ intros mb' b L. destruct (Nat.eq_dec mb' mb). subst. eapply SB; eauto. rewrite ln_put_other in L by auto. eauto.
+           ++ intros c0 ids0 id' L IN. destruct (SC _ _ _ L IN) as (mb1 & X1 & X2). exists mb1. split; auto.
+              destruct (Nat.eq_dec mb1 mb). subst. rewrite ln_put_same. congruence. rewrite ln_put_other; auto.
+           ++ intros mb' N. destruct (Nat.eq_dec mb' mb). subst. apply SL. congruence. rewrite ln_put_other in N by auto. auto.
+        -- split; simpl; auto. intros mb' L N. destruct (Nat.eq_dec mb' mb). subst. congruence. rewrite ln_put_other; auto.
+    + destruct (x <? nw); inv H. split; auto. apply sext_refl.
+  - inv H. split; auto. apply sext_refl.
+  - inv H. split; auto. apply sext_refl.
+  - inv H. split; auto. apply sext_refl.
+  - repeat dmH H; inv H; split; auto; apply sext_refl.
+Qed.
+
+(* ------------------------------------------------------------------ C12_client_cancel / C12_client_disconnect *)
+Lemma step_server P s e s' l : step P s e = Some (s', l) -> srv_inv (sy_server s) ->
+  srv_inv (sy_server s') /\ sext (sy_server s) (sy_server s').
+Proof.
+  intros H I. destruct e.
+  - apply step_client in H. destruct H as (srv & o & iss & H1 & -> & _). simpl. eapply sreq_inv; eauto.
+  - apply step_up in H. destruct H as (m & q & srv & o & lab & H1 & H2 & -> & _). simpl. eapply sup_inv; eauto.
+  - apply step_down in H. destruct H as (m & q & ws & ws' & H1 & H2 & H3 & ->). simpl. split; auto. apply sext_refl.
+  - apply step_step in H. destruct H as (ws & q & ws' & out & H1 & H2 & H3 & ->). simpl. split; auto. apply sext_refl.
+Qed.
+
+Lemma run_server P evs : forall s s' l, run P s evs = Some (s', l) -> srv_inv (sy_server s) ->
+  srv_inv (sy_server s') /\ sext (sy_server s) (sy_server s').
+Proof.
+  induction evs as [|e r IH]; intros s s' l H I; simpl in H.
+  - inv H. split; auto. apply sext_refl.
+  - destruct (step P s e) as [[s1 l1]|] eqn:S; [|discriminate].
+    destruct (run P s1 r) as [[s2 l2]|] eqn:R; [|discriminate]. inv H.
+    destruct (step_server _ _ _ _ _ S I) as [I1 [E1 E2]]. destruct (IH _ _ _ R I1) as [I2 [E3 E4]]. split; auto.
+    split. lia. intros mb L N. apply E4. lia. apply E2; auto.
+Qed.
+
+Lemma srv_inv_reach P nw evs s l : run P (init_sys nw) evs = Some (s, l) -> srv_inv (sy_server s).
+Proof. intros H. eapply run_server in H. tauto. simpl. apply srv_inv_init. Qed.
+
+Lemma filter_seq_eq k : forall n a, a <= k < a + n -> filter (fun w => w =? k) (seq a n) = [k].
+Proof. induction n as [|n IH]; intros a H; simpl. lia.
+  destruct (a =? k) eqn:E.
+  - apply Nat.eqb_eq in E. subst. f_equal.
+    assert (X : forall m b, k < b -> filter (fun w => w =? k) (seq b m) = []).
+    { induction m as [|m IHm]; intros b L; simpl; auto. destruct (b =? k) eqn:E2. apply Nat.eqb_eq in E2. lia. apply IHm. lia. }
+    apply X. lia.
+  - apply Nat.eqb_neq in E. apply IH. lia. Qed.
+
+Lemma broadcast_filter nw m k : k < nw -> map snd (filter (fun p : nat * msg => fst p =? k) (broadcast nw m)) = [m].
+Proof. intros L. unfold broadcast.
+  assert (E : forall l, map snd (filter (fun p : nat * msg => fst p =? k) (map (fun w => (w, m)) l)) = map (fun _ => m) (filter (fun w => w =? k) l)).
+  { induction l as [|x l IH]; simpl; auto. destruct (x =? k); simpl; rewrite IH; auto. }
+  rewrite E, filter_seq_eq by lia. auto. Qed.
+
+(* the result of a cancelled / disconnected compilation task is dropped by the server: nothing changes, nothing is sent *)
+Lemma sup_discards nw mb slot v by_ asg s : lookup_n mb (s_boxes s) = None ->
+  sup nw (MResult (0, mb, slot) v by_) asg s = Some (s, no_out, [LSrvDiscard mb v]).
+Proof. intros H. simpl. rewrite H. auto. Qed.
+
+Theorem client_cancel P nw evs s0 l0 c id asg s1 l1 :
+  run P (init_sys nw) evs = Some (s0, l0) -> step P s0 (EClient c (CCancel id) asg) = Some (s1, l1) ->
+  exists mb owner, lookup_n id (s_tasks (sy_server s0)) = Some (mb, owner)
+    /\ lookup_n mb (s_boxes (sy_server s1)) = None
+    /\ (forall ids, lookup_n owner (s_clients (sy_server s1)) = Some ids -> ~ In id ids)
+    /\ (forall k q, nth_error (sy_down s0) k = Some q -> nth_error (sy_down s1) k = Some (q ++ [MCancel (0, mb, 0)]))
+    /\ sy_issued s1 = sy_issued s0 ++ [(0, mb, 0)]
+    /\ (forall evs2 s2 l2, run P s1 evs2 = Some (s2, l2) -> lookup_n mb (s_boxes (sy_server s2)) = None).
+Proof.
+  intros R ST. pose proof (srv_inv_reach _ _ _ _ _ R) as I.
+  assert (SI : sinv s0) by (eapply run_sinv; eauto; apply sinv_init). destruct SI as [[LU LD WK] _ _].
+  pose proof (step_server _ _ _ _ _ ST I) as [I1 _].
+  apply step_client in ST. destruct ST as (srv & o & iss & H1 & -> & _). simpl in H1.
+  pose proof (cancel_comp_spec _ _ _ _ _ _ H1 I) as (mb & owner & T & _ & B & CL & -> & OD & _ & _ & CN & _).
+  exists mb, owner. simpl. split; auto. split; auto. split; auto. split; [|split; auto].
+  - intros k q Q. erewrite push_down_nth; eauto. rewrite OD. rewrite broadcast_filter; auto.
+    rewrite <- LD. apply nth_error_Some. congruence.
+  - intros evs2 s2 l2 R2. apply run_server in R2; auto. simpl in R2. destruct R2 as [_ [_ E]]. apply E; auto.
+    rewrite CN. eapply sv_task; eauto.
+Qed.
+
+Theorem client_disconnect P nw evs s0 l0 c order asg s1 l1 :
+  run P (init_sys nw) evs = Some (s0, l0) -> step P s0 (EClient c (CDisconnect order) asg) = Some (s1, l1) ->
+  lookup_n c (s_clients (sy_server s1)) = None
+  /\ (forall id mb, ~ In (id, (mb, c)) (s_tasks (sy_server s1)))
+  /\ (forall id mb, lookup_n id (s_tasks (sy_server s0)) = Some (mb, c) ->
+        lookup_n id (s_tasks (sy_server s1)) = None /\ lookup_n mb (s_m2t (sy_server s1)) = None
+        /\ lookup_n mb (s_boxes (sy_server s1)) = None
+        /\ forall evs2 s2 l2, run P s1 evs2 = Some (s2, l2) -> lookup_n mb (s_boxes (sy_server s2)) = None)
+  /\ (forall a, In a (sy_issued s1) -> In a (sy_issued s0)
+        \/ exists id mb, lookup_n id (s_tasks (sy_server s0)) = Some (mb, c) /\ a = (0, mb, 0))
+  /\ (forall a k q, In a (sy_issued s1) -> ~ In a (sy_issued s0) -> nth_error (sy_down s1) k = Some q -> In (MCancel a) q).
+Proof.
+  intros R ST. pose proof (srv_inv_reach _ _ _ _ _ R) as I.
+  assert (SI : sinv s0) by (eapply run_sinv; eauto; apply sinv_init). destruct SI as [[LU LD WK] _ _].
+  pose proof (step_server _ _ _ _ _ ST I) as [I1 _].
+  apply step_client in ST. destruct ST as (srv & o & iss & H1 & -> & _). simpl in H1.
+  pose proof (disconnect_bcast _ _ _ _ _ _ _ H1) as BC.
+  pose proof (disconnect_spec _ _ _ _ _ _ _ H1 I) as (_ & D2 & D3 & D4 & D5 & D6 & D7 & D8 & _).
+  simpl. split; auto. split; auto. split; [|split].
+  - intros id mb L. destruct (D5 _ _ L) as (X1 & X2 & X3). repeat split; auto.
+    intros evs2 s2 l2 R2. apply run_server in R2; auto. simpl in R2. destruct R2 as [_ [_ E]]. apply E; auto.
+    rewrite D8. eapply sv_task; eauto.
+  - intros a IN. apply in_app_or in IN. destruct IN as [IN|IN]; auto.
+  - intros a k q IN NI Q. apply in_app_or in IN. destruct IN as [IN|IN]; [contradiction|].
+    assert (KL : k < length (sy_workers s0)).
+    { rewrite <- LD. rewrite <- (length_push_down (o_down o)). apply nth_error_Some. congruence. }
+    destruct (nth_error (sy_down s0) k) as [q0|] eqn:Q0; [|apply nth_error_None in Q0; lia].
+    destruct (push_down_has (o_down o) _ _ _ (MCancel a) Q0 (BC _ _ IN KL)) as (q' & X1 & X2). rewrite Q in X1. inv X1. auto.
+Qed.
